@@ -220,7 +220,12 @@ func (t *TcpTransport) customDial(ctx context.Context, raddr ma.Multiaddr) (mane
 		return nil, fmt.Errorf("unrecognized network: %s", rnet)
 	}
 
-	return manet.WrapNetConn(nconn)
+	mconn, err := manet.WrapNetConn(nconn)
+	if err != nil {
+		nconn.Close()
+		return nil, err
+	}
+	return mconn, nil
 }
 
 func (t *TcpTransport) maDial(ctx context.Context, raddr ma.Multiaddr) (manet.Conn, error) {
